@@ -348,6 +348,24 @@ func buildValue(vc vlCase) (reflect.Value, error) {
 		return outer(func(o *fixt.Outer) { o.U8 = uint8(L.Uint()) }), nil
 	case "outerI64":
 		return outer(func(o *fixt.Outer) { o.I64 = L.Int() }), nil
+	case "crossName": // every field whose type comes from the other package is zero (and may be omitted)
+		return reflect.ValueOf(fixt.Cross{Name: "n"}), nil
+	case "crossB":
+		return reflect.ValueOf(fixt.Cross{B: fixt2.B{Y: 1.5}}), nil
+	case "crossPBZero":
+		return reflect.ValueOf(fixt.Cross{Name: "n", PB: &fixt2.B{}}), nil
+	case "crossSBZero":
+		return reflect.ValueOf(fixt.Cross{SB: []fixt2.B{{}, {Y: 2}}}), nil
+	case "crossABZero":
+		return reflect.ValueOf(fixt.CrossArr{Name: "n", AB: [1]fixt2.B{{}}}), nil
+	case "crossAB":
+		return reflect.ValueOf(fixt.CrossArr{AB: [1]fixt2.B{{Y: 3}}}), nil
+	case "crossMBZero":
+		return reflect.ValueOf(fixt.Cross{MB: map[string]fixt2.B{"k": {}}}), nil
+	case "crossBS":
+		return reflect.ValueOf(fixt.Cross{BS: "bs"}), nil
+	case "crossEmpty": // empty, non-nil containers of the other package's type
+		return reflect.ValueOf(fixt.Cross{Name: "n", SB: []fixt2.B{}, MB: map[string]fixt2.B{}}), nil
 	case "outerZero":
 		return outer(func(o *fixt.Outer) {}), nil
 	case "outerPInZero":
